@@ -101,6 +101,13 @@ FLOORS = {
                               "gates_released": 1500000, "schedules_fresh_env": 6000,
                               "cases_with_argless_namespace": 9,
                               "cases_with_namespace_from_data_mapping": 3,
+                              "cases_with_imported_macro_awaiting_inside_autoescape_block": 70,
+                              "cases_with_imported_autoescape_macro_and_evalctx_probe": 60,
+                              "schedules_with_task_suspended_inside_imported_autoescape_block": 90000,
+                              "schedules_probing_eval_context_during_such_suspension": 60000,
+                              "evalctx_probe_evaluations": 1000000,
+                              "modrace_schedules_with_task_suspended_inside_imported_autoescape_block": 120000,
+                              "modrace_schedules_probing_eval_context_during_such_suspension": 65000,
                               "modrace_cases": 90, "modrace_schedules": 100000,
                               "modrace_import_while_body_suspended": 80000,
                               "modrace_cases_all_orders_enumerated": 70}},
